@@ -321,7 +321,11 @@ def driver_batch(lines, timeout=600):
     """Run a batch of requests through a fresh driver process; returns the answer lines."""
     if not lines:
         return []
-    r = subprocess.run([DRIVER], input="\n".join(lines) + "\n", capture_output=True, text=True, timeout=timeout)
+    try:
+        r = subprocess.run([DRIVER], input="\n".join(lines) + "\n", capture_output=True, text=True, timeout=timeout)
+    except subprocess.TimeoutExpired:
+        # a loaded machine: the time limit only exists to stop a hung process; try once more with four times the time
+        r = subprocess.run([DRIVER], input="\n".join(lines) + "\n", capture_output=True, text=True, timeout=4 * timeout)
     out = r.stdout.split("\n")
     if out and out[-1] == "":
         out.pop()
